@@ -44,5 +44,5 @@ Proof. reflexivity. Qed.
 
 (** non-vacuity: a drawing with a line, a rectangle and a text has a document *)
 Example C11_nonvacuous :
-  match doc (zs "+--+  a-"%string) default_settings with Ok (Elem _ _ kids) => (3 <=? Z.of_nat (length kids)) | _ => false end = true.
+  match doc (zs "+--+  a-"%string) default_settings with Ok (Elem _ _ kids) => (3 <=? Z.of_nat (List.length kids)) | _ => false end = true.
 Proof. vm_compute. reflexivity. Qed.
